@@ -13,6 +13,7 @@
 // limitations under the License.
 
 #![doc = include_str!(concat!(env!("OUT_DIR"), "/foyer-docs.md"))]
+#![cfg_attr(not(foyer_verif), allow(unexpected_cfgs))]
 #![cfg_attr(feature = "nightly", feature(allocator_api))]
 #![cfg_attr(docsrs, feature(doc_cfg))]
 
